@@ -34,7 +34,7 @@ TYPE_KINDS = {'datetime.datetime': ('dt',), 'datetime.timedelta': ('td',), 'int'
               'bool': ('bool',), 'float': ('float',), 'list': ('list',), 'tuple': ('tuple',), 'dict': ('dict',),
               'NaTType': (), 'du.relativedelta.relativedelta': (), 'datetime.date': ('dt',), 'type(None)': ('none',),
               'dict_values': ('tvalues',), 'dict_keys': ('tkeys',), 'range': ('range',), 'zip': (), 'slice': ('pyslice',), 'Pattern': ('pattern',),
-              'dictable': ('table',), 'np.ndarray': (), 'pd.Series': (), 'pd.DataFrame': ()}
+              'dictable': ('table',), 'Calendar': ('calendar',), 'np.ndarray': (), 'pd.Series': (), 'pd.DataFrame': ()}
 
 
 class TypePreds:
